@@ -11,6 +11,7 @@ import Driver.TxToScript
 import Driver.Store
 import Driver.Syntax
 import Driver.DryParam
+import Driver.Bytecode
 /-! registry of the areas the driver serves -/
 namespace Driver
 def areas : List (String × Handler) := [
@@ -26,6 +27,7 @@ def areas : List (String × Handler) := [
   ("txscript", TxToScriptD.handle),
   ("storeview", StoreD.handle),
   ("nstext", SyntaxD.handle),
-  ("dryparam", DryParamD.handle)
+  ("dryparam", DryParamD.handle),
+  ("nsbytecode", BytecodeD.handle)
 ]
 end Driver
